@@ -169,6 +169,17 @@ func unreadableClass(src map[string]any, migrated []byte, srcVersion string) str
 				for _, a := range acts {
 					am, _ := a.(map[string]any)
 					if str(am["type"]) == "set_run_result" && str(am["name"]) == "" {
+						// which name it was: one of nothing but white space, or one with something after >= 64 blanks
+						for _, sn := range src["nodes"].([]any) {
+							snm, _ := sn.(map[string]any)
+							sacts, _ := snm["actions"].([]any)
+							for _, sa := range sacts {
+								sam, _ := sa.(map[string]any)
+								if str(sam["uuid"]) == str(am["uuid"]) && strings.TrimSpace(str(sam["name"])) == "" {
+									return "13.6-blank-name-truncated-to-empty:set_run_result"
+								}
+							}
+						}
 						return "13.6-name-truncated-to-empty"
 					}
 				}
